@@ -190,6 +190,26 @@ def run(tier, seed):
         "samples": [" ".join("%s:%s" % x for x in w) for w in wl[:12]],
         "word_frequencies": {" ".join("%s:%s" % x for x in w): c for w, c in words.most_common(20)},
     }
+    # lock-free loops (the version clock's load / compare-exchange loop, the extent word's acquire loop): every schedule of
+    # the clock and word-pin program families, with the loads of those words as decision points, must TERMINATE
+    import concengine as _cc
+    fam = _cc.clock_family()
+    if tier == "quick":
+        rng.shuffle(fam)
+        fam = fam[:14]
+    lres = _cc.run_dfs(fxv, rd, fam, "clockterm", chunk=2, maxsched=30 if tier == "quick" else 200, preempt=2, par=12)
+    lsched = 0
+    for x in lres:
+        if x["rc"] in (3, -9) or "hang" in x["info"]:
+            p = v.save_replay("c18", os.path.basename(x["prog"]) + ".hang.json", {"info": x["info"], "programs": x["names"]})
+            viol.append({"what": "a schedule at the version-clock loads did not terminate (%s): %s" % (", ".join(x["names"]), x["info"]),
+                         "replay": p, "key": "hang lock-free"})
+        elif x["rc"] != 0 and not v.panic_in_code_under_test(x["stderr"]):
+            raise v.ToolError("fxv conc (clockterm) failed: " + x["stderr"][-400:])
+        else:
+            lsched += x["info"].get("schedules", 0)
+    cov["lock_free_schedules_terminated"] = lsched
+    cov["lock_free_programs"] = len(fam)
     # design level, liveness (WriteBehind.tla under weak fairness of worker, start-up and flush caller)
     import crashengine as _ce
     _lv = v.run_tlc("MCWriteBehind", "MCWriteBehind_live.cfg", rd, workers=4, timeout=1200, coverage=False, xmx="8g")
